@@ -273,6 +273,7 @@ type txnGenOpts struct {
 	InsertAllPct int       // percent of inserts that set every column (so that reuse exposes stale data)
 	MultiBlock   bool
 	SwallowPct   int // percent of aborting transactions in which one insert callback fails and the body ignores it
+	DupDelPct    int // percent of delete operations that are repeated right away (the row / key still resolves inside the transaction)
 }
 
 func (g *Gen) pickCols(m *Model, o txnGenOpts, n int) []ColSpec {
@@ -496,6 +497,11 @@ func (g *Gen) genTxn(m *Model, live []uint32, o txnGenOpts) TxnSpec {
 				if k, has := m.Cells[m.KeyCol][off]; has {
 					ts.keysGone[k.S] = true
 				}
+			}
+			if o.DupDelPct > 0 && g.rng.Intn(100) < o.DupDelPct {
+				// the same delete once more: nothing is committed yet, so the row is still there and the key
+				// still resolves - the second delete succeeds too and changes nothing
+				spec.Ops = append(spec.Ops, op)
 			}
 		default:
 			if !keyed {
